@@ -6,6 +6,7 @@ import random
 
 import sess
 import srv
+import c04_claims
 from engine import coq_str, coq_list, coq_bool, coq_nat, coq_opt
 
 RULE = ("(a) plaintext correspondence: real opaque tokens of every class are decrypted with the handler's own key and compared with "
@@ -59,6 +60,18 @@ RULE = ("(a) plaintext correspondence: real opaque tokens of every class are dec
         "and the endpoints, and compared with the model (chk_icross).  Oracle: an instance accepts a value only if it minted it; instances "
         "whose keys the library generated accept nothing of each other and nothing made with each other's keys (control: instances the "
         "harness gave the same keys read each other's tokens at the handler, and still resolve none). "
+        "(h) ONE ACCEPTED STRING, TWO READERS: on providers with a JWT handler in the access and / or refresh slot (OIDC and OAuth2, public "
+        "and pairwise subjects, one kwargs object shared by both JWT handlers) every token handed out on every minting path of the token "
+        "endpoint - code redemption, refresh (also narrowed), RFC 8693 token exchange asked for by the subject token's own client and by "
+        "ANOTHER client (exchange session), down-scoped, audience-restricted, refresh token as subject / requested, chains (exchange of an "
+        "exchanged token by a third client, by the second again, back by the first; refresh with an exchanged refresh token), "
+        "client_credentials - with several users and clients live at once, is read by both readers: the provider (session manager, "
+        "introspection by the receiving client) and a resource server that validates the JWT with the provider's public keys. Oracle: the "
+        "provider resolves the value to the user and the client it was handed to; introspection names that client and the grant's sub; the "
+        "sid claim is a session id of that very (user, client, grant); every claim that names a party or a right (client_id, sub, scope, "
+        "aud), where stated, is that of this session, iss / token_class are the provider / the slot's class, and no other live session has "
+        "the (client_id, sub) the claims state; the views are compared with Model/TokenClaims.v (grant_of, payload_arguments, "
+        "introspection_of: chk_claims). "
         "A case is one presentation; non-trivial when the presented string derives from a genuine token.")
 ASSUMPTIONS = ["Fernet is an authenticated encryption and JWS signatures are unforgeable (symbolic model); byte-level mutations are exercised on the real libraries",
                "rndstr(32) / uuid values are fresh",
@@ -2411,11 +2424,16 @@ def run(ctx):
             cases += third_party_oracle(ctx, rng, variant, mode)
     ctx.coq_check_cases(["Lib.Base", "Lib.PyStr", "Lib.Crypto", "Model.Lv", "Model.TokenFmt"], "tfcase", "chk_tflight", cases,
                         shard=120, label="tflight_asker", diag="diag_tflight")
+    # one accepted string, two readers: the claims of JWT-formatted tokens of every minting path vs. the session they resolve to
+    c04_claims.claims_oracle(ctx)
     inst.finish()
 
 
 def replay(ctx, rp):
     case = rp.get("case") or {}
+    if case.get("kind") == "claims":
+        c04_claims.replay_case(ctx, case)
+        return
     if case.get("kind") == "tflight":
         # the recorded flight alone, on a fresh provider of the recorded variant
         fl = TFlights(ctx, tuple(case["variant"]), third=case.get("third"))
